@@ -87,6 +87,33 @@ theorem tinv_of (bounds : Nat → R) (t' : Tree R) (l : List (Item R)) (hk : Key
     (hc : t'.count = (l.length : Int)) (hr : ∀ r, t'.root = some r → Node.Inv r) : TInv bounds t' :=
   ⟨hr, hk.perm hp, by rw [hc, hp.length_eq]⟩
 
+/-- the re-insertion loop of `Reorganize`, whatever the guard decides for each item -/
+theorem reorgFold_ok (rect : R) (threshold fuel : Nat) (l : List (Item R)) (s : Node R × List (Item R))
+    (hinv : Node.Inv s.1) (hr : s.1.rect = rect) :
+    let res := l.foldl (Tree.reorgStep rect threshold fuel) s
+    Node.Inv res.1 ∧ res.1.rect = rect ∧ (res.2 ++ res.1.all).Perm (l ++ (s.2 ++ s.1.all)) := by
+  induction l generalizing s with
+  | nil => exact ⟨hinv, hr, List.Perm.refl _⟩
+  | cons c t ih =>
+    simp only [List.foldl_cons]
+    unfold Tree.reorgStep
+    split
+    · rename_i hc
+      obtain ⟨i1, i2, i3⟩ := Node.insert_ok threshold fuel s.1 c hinv (by rw [hr]; exact hc)
+      obtain ⟨a, b, d⟩ := ih (Node.insert threshold fuel s.1 c, s.2) i1 (by rw [i3, hr])
+      refine ⟨a, b, d.trans ?_⟩
+      simp only [List.cons_append]
+      have h1 : (s.2 ++ (Node.insert threshold fuel s.1 c).all).Perm (c :: (s.2 ++ s.1.all)) :=
+        (i2.append_left s.2).trans List.perm_middle
+      exact (h1.append_left t).trans List.perm_middle
+    · obtain ⟨a, b, d⟩ := ih (s.1, s.2 ++ [c]) hinv hr
+      refine ⟨a, b, d.trans ?_⟩
+      simp only [List.cons_append]
+      have h1 : ((s.2 ++ [c]) ++ s.1.all).Perm (c :: (s.2 ++ s.1.all)) := by
+        have : (s.2 ++ [c]).Perm (c :: s.2) := List.perm_append_singleton c s.2
+        simpa using this.append_right s.1.all
+      exact (h1.append_left t).trans List.perm_middle
+
 theorem reorganize_ok (bounds : Nat → R) (fuel : Nat) (t : Tree R) (h : TInv bounds t) :
     TInv bounds (t.reorganize fuel) ∧ (t.reorganize fuel).all.Perm t.all := by
   unfold Tree.reorganize
@@ -94,28 +121,29 @@ theorem reorganize_ok (bounds : Nat → R) (fuel : Nat) (t : Tree R) (h : TInv b
   split
   · rename_i hemp
     have hnil : t.all = [] := by simpa using hemp
-    refine ⟨⟨?_, ?_, ?_⟩, ?_⟩
-    · intro r hr; simp at hr
-    · intro it hit; simp [Tree.all] at hit
-    · have := h.count; rw [hnil] at this; simp [Tree.all, this]
-    · rw [hnil]; simp [Tree.all]
-  · have hne : ∀ it ∈ t.all, L.empty it.rect = false := fun it hit => (h.keyed it hit).2
-    obtain ⟨_, hcont⟩ := fold_union_contains t.all hne L.zero
-    have hleaf : Node.Inv (Node.leaf (t.all.foldl (fun r one => L.union r one.rect) L.zero) ([] : List (Item R))) := by
+    have ha : (Tree.mk none [] t.threshold t.nodeThr t.count : Tree R).all = [] := by rw [all_mk]; rfl
+    refine ⟨tinv_of bounds _ t.all h.keyed (by rw [ha, hnil]) h.count ?_, by rw [ha, hnil]⟩
+    intro r hr; cases hr
+  · have hleaf : Node.Inv (Node.leaf (t.all.foldl (fun r one => L.union r one.rect) L.zero) ([] : List (Item R))) := by
       intro x hx; simp at hx
-    obtain ⟨q1, q2, _⟩ := Node.fold_ok (Node.insert t.thr fuel) (Node.insert_ok t.thr fuel) _ t.all _ hleaf rfl hcont
-    have hp : (List.foldl (fun n one => Node.insert t.thr fuel n one)
-        (Node.leaf (t.all.foldl (fun r one => L.union r one.rect) L.zero) []) t.all).all.Perm t.all := by
-      have : (t.all.reverse ++ Node.all (Node.leaf (t.all.foldl (fun r one => L.union r one.rect) L.zero)
-          ([] : List (Item R)))).Perm t.all := by
-        simp [Node.all]
-      exact q2.trans this
-    have ha : ∀ (n : Node R) (a : Int) (b : Nat) (c : Int), (Tree.mk (some n) [] a b c : Tree R).all = n.all := by
-      intro n a b c; rw [all_mk]; simp [rootAll]
-    refine ⟨tinv_of bounds _ t.all h.keyed (by rw [ha]; exact hp) h.count ?_, by rw [ha]; exact hp⟩
+    obtain ⟨q1, _, q3⟩ := reorgFold_ok (t.all.foldl (fun r one => L.union r one.rect) L.zero) t.thr fuel t.all
+      (Node.leaf (t.all.foldl (fun r one => L.union r one.rect) L.zero) [], []) hleaf rfl
+    have hp : ∀ (n : Node R) (o : List (Item R)), (o ++ n.all).Perm (t.all ++ ([] ++ Node.all (Node.leaf
+        (t.all.foldl (fun r one => L.union r one.rect) L.zero) ([] : List (Item R))))) →
+        (Tree.mk (some n) o t.threshold t.thr t.count : Tree R).all.Perm t.all := by
+      intro n o hh
+      rw [all_mk]; simp only [rootAll]
+      simpa [Node.all] using hh
+    refine ⟨tinv_of bounds _ t.all h.keyed (hp _ _ q3) h.count ?_, hp _ _ q3⟩
     intro r hr
     simp only [Option.some.injEq] at hr
     subst hr; exact q1
+
+/-- in exact arithmetic the guard of `Reorganize` always holds: the union rectangle contains every stored item, so
+    nothing is sent to the outside list (the guard only matters when the union is rounded) -/
+theorem reorganize_guard_exact (bounds : Nat → R) (t : Tree R) (h : TInv bounds t) :
+    ∀ it ∈ t.all, L.contains (t.all.foldl (fun r one => L.union r one.rect) L.zero) it.rect = true :=
+  (fold_union_contains t.all (fun it hit => (h.keyed it hit).2) L.zero).2
 
 theorem insert_ok (bounds : Nat → R) (fuel : Nat) (t : Tree R) (h : TInv bounds t) (it : Item R)
     (hit : it.rect = bounds it.id) (hne : L.empty it.rect = false) :
